@@ -75,7 +75,8 @@ Proof.
     destruct (t_vsock_closed t); intro H; injection H as <- _ _; cbn [upd g_written g_removed ring]; auto.
   - destruct (writer_dropped t); [intro H; injection H as <- _ _; auto|].
     unfold poll_shutdown. destruct (ring t) eqn:Er;
-      destruct (t_vsock_closed t); intro H; injection H as <- _ _; cbn [upd g_written g_removed ring]; auto.
+      destruct (t_vsock_closed t); try destruct (writer_shutdown t);
+      intro H; injection H as <- _ _; cbn [upd g_written g_removed ring]; auto.
   - unfold drop_writer. destruct (writer_dropped t); intro H; injection H as <- _ _;
       cbn [upd g_written g_removed ring]; auto.
   - unfold mark_vsock_closed. intro H; injection H as <- _ _. cbn [upd g_written g_removed ring]; auto.
